@@ -27,6 +27,41 @@ REVERSED_NAMES = {"a": "zed", "b": "mid", "c": "alpha", "d": "x", "rest": "a0"}
 STYLES = {"upper": ("UPPER_SNAKE", "_", str.upper, str.upper), "camel": ("CAMEL", "", str.lower, str.title)}
 
 
+def _styles_from_examples() -> dict:
+    """every NameStyle, read off the DOCUMENTED example that is the member's value ('camel_Snake', 'Pascal-Kebab', 'UPPER.DOT',
+    'lowercase'): the separator is the character after the first word, the case of the first / the other words is the case of
+    the example's first / second word - not taken from the conversion table of the implementation"""
+    from adaptix import NameStyle
+    case_of = lambda w: str.lower if w.islower() else str.upper if w.isupper() else str.title  # noqa: E731
+    out = {}
+    for st in NameStyle:
+        ex = st.value
+        first = next(w for w in ("lower", "camel", "Pascal", "UPPER") if ex.startswith(w))
+        rest = ex[len(first):]
+        sep = rest[0] if not rest[0].isalpha() else ""
+        out[st.name] = (st.name, sep, case_of(first), case_of(rest[len(sep):]))
+    return out
+
+
+ALL_STYLES: dict = {}
+OTHER_STYLE = {"name": "PASCAL_KEBAB"}      # the style the model's token "other" stands for in the current program
+
+
+def style_of(token: str):
+    if token != "other":
+        return STYLES[token]
+    if not ALL_STYLES:
+        ALL_STYLES.update(_styles_from_examples())
+    return ALL_STYLES[OTHER_STYLE["name"]]
+
+
+def choose_other_style(h: int) -> None:
+    if not ALL_STYLES:
+        ALL_STYLES.update(_styles_from_examples())
+    names = sorted(ALL_STYLES)
+    OTHER_STYLE["name"] = names[h % len(names)]
+
+
 class Names:
     """dictionary from name / key tokens to strings (benign by default; C19 substitutes hostile ones)"""
 
@@ -91,7 +126,7 @@ class Names:
             fid = k["id"]
             if k["style"] == "none":
                 return self.field(fid)
-            _, sep, first, other = STYLES[k["style"]]
+            _, sep, first, other = style_of(k["style"])
             words = [self.word(w) for w in fid["w"]]
             body = sep.join([first(words[0])] + [other(w) for w in words[1:]])
             return "_" * fid["lead"] + body + "_" * fid["us"]
@@ -203,7 +238,7 @@ def build_overlay(ov: dict, shape, names: Names, rng: random.Random, model, help
                     lst.append((sel_pred(e["sel"]["s"], shape, names, rng, model), spec))
             kw["map"] = lst
     if ov["style"]["o"]:
-        kw["name_style"] = None if ov["style"]["v"] == "none" else getattr(NameStyle, STYLES[ov["style"]["v"]][0])
+        kw["name_style"] = None if ov["style"]["v"] == "none" else getattr(NameStyle, style_of(ov["style"]["v"])[0])
     if ov["trim"]["o"]:
         kw["trim_trailing_underscore"] = ov["trim"]["v"]
     for mname, kname in (("skip", "skip"), ("only", "only"), ("omit", "omit_default")):
@@ -829,6 +864,7 @@ def _worker(items) -> dict:
                     names.table_index = (h + seed) % len(tables)
                 try:
                     names.dstyle = (int(stable_hash([case["shape"], case["ovs"]]), 16) + seed) % 3
+                    choose_other_style(int(stable_hash([case["shape"], case["ovs"]]), 16) // 7 + seed)
                     if kinds is not None:
                         from .kinds import BY_NAME
                         from .kinds import VARIANT_KINDS
